@@ -11,6 +11,12 @@ sys.path.insert(0, HERE)
 from selftest.scratch import mutated  # noqa: E402
 
 EDITS = [
+    ('C11', 'boltons/setutils.py', "            self.item_index_map[item] = len(self.item_list)\n            self.item_list.append(item)",
+     "            slot = len(self.item_list)\n            self.item_list.append(item)\n            self.item_index_map[item] = slot", 1,
+     'IndexedSet.add: slot number through a local, map written after the append'),
+    ('C11', 'boltons/setutils.py', "        self.item_list[didx] = _MISSING\n        self._add_dead(didx)\n        self._cull()",
+     "        items = self.item_list\n        items[didx] = _MISSING\n        self._add_dead(didx)\n        self._cull()", 1,
+     'IndexedSet.remove: the slot list through a local alias'),
     ('C09', 'boltons/iterutils.py', 'initial_chunk_len', 'first_len', 99, 'rename a local of chunk_ranges'),
     ('C02', 'boltons/cacheutils.py', "        oldanchor[KEY] = key\n        oldanchor[VALUE] = value\n",
      "        oldanchor[VALUE] = value\n        oldanchor[KEY] = key\n", 1, 'swap two independent stores in the eviction helper'),
